@@ -40,7 +40,12 @@ theorem close_init : Close init := by
 
 macro "close_close" hg:term : tactic =>
   `(tactic| (constructor <;>
-      simp [setCall, setNotif, finish, Call.finish, removeAck, Call.exitLoop, Call.retC, newCall, $hg:term] <;>
+      simp [setCall, setNotif, finish, Call.finish, removeAck, exitAck, Call.exitLoop, Call.retC, newCall, Cfg.std_all $hg] <;>
+      grind [Close, Inv, Call.retC]))
+
+macro "close_close0" : tactic =>
+  `(tactic| (constructor <;>
+      simp [setCall, setNotif, removeAck, Call.exitLoop, Call.retC, newCall] <;>
       grind [Close, Inv, Call.retC]))
 
 set_option maxHeartbeats 4000000 in
@@ -49,13 +54,14 @@ theorem close_start {s s' : State} {i seq body : Nat} (h : Close s) (hi : Inv s)
   unfold stepStart at hs
   split at hs
   · simp at hs
-  · dsimp only at hs
-    split at hs <;> simp at hs <;> subst hs <;> close_close True.intro
+  · try dsimp only at hs
+    split at hs <;> simp at hs <;> subst hs <;> close_close0
 
 set_option maxHeartbeats 4000000 in
-theorem close_sret {cfg : Cfg} {s s' : State} {i : Nat} {o : Outcome} (hg : cfg.guard = true) (h : Close s) (hi : Inv s)
+theorem close_sret {cfg : Cfg} {s s' : State} {i : Nat} {o : Outcome} (hg : cfg.std = true) (h : Close s) (hi : Inv s)
     (hs : stepSret cfg s i o = some s') : Close s' := by
   unfold stepSret at hs
+  std_norm hg at hs
   split at hs
   · simp at hs
   · split at hs <;> try (simp at hs)
